@@ -36,7 +36,7 @@ ASSUMPTIONS = [
     "NumPy's own dense operations on object arrays (tensordot, einsum-free trace via np.trace, transpose) are the reference",
     "part A: as C02",
 ]
-NOT_DECIDED = ["complex data (values are proved over symbolic reals)", "ncon / einsum beyond the enumerated network shapes"]
+NOT_DECIDED = ["complex data beyond h_values_complex (conjugation variants, conj= flags of tensordot / vdot, trace, linear combinations; the other operations are proved over symbolic reals)", "ncon / einsum beyond the enumerated network shapes"]
 
 
 UNIVERSE = {'dense': [()], 'Z2': [(0,), (1,)], 'Z3': [(0,), (1,), (2,)], 'U1': [(-1,), (0,), (1,)],
